@@ -11,8 +11,20 @@ References are spread over 1..3 model files (ImportURI loading).  The Lean model
 (`Resolve.loop` + `Resolve.attrAfter`, Drivers/Resolve.lean) is run on the same
 table, order and list attributes.
 
+How the provider of reference K finds out whether a reference D it waits for is
+resolved ("how", per waiting reference):
+  "v" (default)  it looks at the model: the attribute of D holds the target;
+  "a"            `textx.scoping.tools.needs_to_be_resolved(object of D, attribute of D)`
+                 (the documented way; answered from `parser._crossrefs`, which is replaced
+                 at the end of a pass only: per object+attribute, stale within a pass);
+  "o"            `needs_to_be_resolved(object of D, None)` (any attribute of the object);
+  "r"            `has_unresolved_crossrefs(object of D, attribute of D)` of the resolver of
+                 the model that holds K (delegates to the owning model's resolver).
+"probe": queries (`needs_to_be_resolved`) the provider of K makes without using the answer.
+
 Case format:
   {"deps": [[K, [K1, ...]], ...], "prov": "exact"|"attr"|"cls",
+   "how": [[K, "a"|"o"|"r"], ...], "probe": [[K, [K1, ...]], ...],      (both optional)
    "files": [{"imports": [file index, ...], "elems": [ELEM, ...]}, ...]}
   ELEM = {"k":"ref","r":K} | {"k":"link","r":[K1,K2]} | {"k":"group","m":[K..],"x":[K..]}
        | {"k":"bag","m":[K..]} | {"k":"pair","m":[K1,K2(,K3)]} | {"k":"box","e":[ELEM..]}
@@ -150,6 +162,43 @@ def case_attrs(case):
     return [a for i, f in enumerate(case["files"]) for a in render_file(i, f)[1]]
 
 
+def case_places(case):
+    """reference id -> (file, object number, attribute number, path, attribute name); objects are numbered
+    over all files, attributes within their class"""
+    places, objs = {}, {}
+    for a in case_attrs(case):
+        o = objs.setdefault((a["file"], tuple(a["path"])), len(objs))
+        n = [x for x, _ in REF_ATTRS[a["cls"]]].index(a["attr"])
+        for r, _ in a["refs"]:
+            places[r] = (a["file"], o, n, tuple(a["path"]), a["attr"])
+    return places
+
+
+def case_how(case):
+    return {k: h for k, h in case.get("how", []) if h != "v"}
+
+
+def expanded_deps(case, reachable):
+    """what the provider of K waits for, as sets of references: {K: set or None (= can never resolve)};
+    a query about an object (and attribute) waits for every reference the object holds (in that attribute)"""
+    places = {r: p for r, p in case_places(case).items() if p[0] in reachable}
+    how = case_how(case)
+    out = {}
+    for k, ds in case["deps"]:
+        mode, want = how.get(k, "v"), set()
+        for d in ds:
+            if d not in places:
+                want = None
+                break
+            if mode == "v":
+                want.add(d)
+            else:
+                f, o, n = places[d][:3]
+                want.update(r for r, p in places.items() if p[1] == o and (mode == "o" or p[2] == n))
+        out[k] = want
+    return out
+
+
 def walk_elems(model_elems, case_elems, path=()):
     """pair the objects of a loaded model with the elements of the case: yields (path, element, object)"""
     if len(model_elems) != len(case_elems):
@@ -186,7 +235,7 @@ def provider_keys(style):
     return sorted(set(keys))
 
 
-def make_mm(table, log, limit, style="exact"):
+def make_mm(table, log, limit, style="exact", case=None):
     use_repo()
     import textx
     from textx import get_model, metamodel_from_str
@@ -217,6 +266,36 @@ def make_mm(table, log, limit, style="exact"):
                             done.add(item_id(x))
         return done
 
+    from textx.scoping.tools import needs_to_be_resolved
+
+    how = case_how(case) if case else {}
+    probes = {k: ds for k, ds in case.get("probe", [])} if case else {}
+    where = {}  # reference id -> (object, attribute name), filled with the first call
+
+    def locate(ms):
+        if where or not case:
+            return
+        byfile = {os.path.basename(m._tx_filename): m for m in ms}
+        for i, f in enumerate(case["files"]):
+            m = byfile.get(f"f{i}.m")
+            if m is None:
+                continue
+            for _, e, o in walk_elems(m.elems, file_elems(f), ()):
+                for a, _, rs in elem_attrs(e):
+                    for r in rs:
+                        where[r] = (o, a)
+
+    def unresolved(mode, asking, d):
+        """does the resolver say that reference d is still to be resolved?"""
+        if d not in where:
+            return True
+        o, a = where[d]
+        if mode == "a":
+            return needs_to_be_resolved(o, a)
+        if mode == "o":
+            return needs_to_be_resolved(o, None)
+        return get_model(asking)._tx_reference_resolver.has_unresolved_crossrefs(o, a)
+
     def provider(obj, attr, obj_ref):
         calls[0] += 1
         if calls[0] > limit:
@@ -224,7 +303,17 @@ def make_mm(table, log, limit, style="exact"):
         rid = int(obj_ref.obj_name[1:])
         ms = all_models(obj)
         deps = table.get(rid, [])
-        if deps:
+        mode = how.get(rid, "v")
+        if mode != "v" or rid in probes:
+            locate(ms)
+        for d in probes.get(rid, []):
+            if d in where:
+                needs_to_be_resolved(*where[d])
+        if deps and mode != "v":
+            if any(unresolved(mode, obj, d) for d in deps):
+                log.append(["postponed", rid])
+                return Postponed()
+        elif deps:
             done = resolved_now(ms)
             if any(d not in done for d in deps):
                 log.append(["postponed", rid])
@@ -272,6 +361,15 @@ class Prop(Check):
         "Resolve.C09_list_result",
         "Resolve.C09_list_success",
         "Resolve.C09_list_order_indep",
+        "Resolve.C09_query_terminates",
+        "Resolve.C09_query_fixpoint",
+        "Resolve.C09_query_lfp",
+        "Resolve.C09_query_error_exact",
+        "Resolve.C09_query_success_iff",
+        "Resolve.C09_query_same_result",
+        "Resolve.C09_query_order_indep",
+        "Resolve.C09_query_list_result",
+        "Resolve.C09_query_list_success",
     ]
     DRIVER = "Drivers/Resolve.lean"
     QUICK_CASES = 480
@@ -281,9 +379,14 @@ class Prop(Check):
             "hidden order) held by single-valued attributes, two attributes of one object, list attributes (+=, *=, repeated "
             "assignment; several objects of one class, two lists on one object, same attribute name in two classes) and "
             "objects nested in containers, spread over 1..3 model files with random import graphs; provider registered "
-            "as Class.attr / *.attr / Class.*; non-trivial = at least one reference is postponed at least once")
+            "as Class.attr / *.attr / Class.*; the provider of a waiting reference learns that a reference is resolved "
+            "from the model (attribute value) or from the resolver (needs_to_be_resolved per attribute / per object, "
+            "has_unresolved_crossrefs of the asking model's resolver; one way per case or per reference), optional "
+            "queries without effect; non-trivial = at least one reference is postponed at least once")
     MODELLED = ("hand-modelled: model.py:935-968 loop and resolve_one_step pass (Resolve.step/loop) and its list branch "
-                "(Resolve.attrAfter: bisect insertion, one position list per object and attribute); tie X: resolution "
+                "(Resolve.attrAfter: bisect insertion, one position list per object and attribute), "
+                "ReferenceResolver.has_unresolved_crossrefs / scoping.tools.needs_to_be_resolved (Resolve.hasUnresolved, "
+                "stepQ/roundQ/loopQ: parser._crossrefs replaced at the end of a pass, one list per model file); tie X: resolution "
                 "sequence + pending set + content of every list attribute vs real resolver with a table-driven provider; "
                 "not exhibited: providers that are not monotone in the resolved set, providers attached in the grammar (RREL)")
     ASSUMPTIONS = ["scope providers are monotone in the set of resolved references (the property's 'given the ones resolved before it')"]
@@ -292,7 +395,26 @@ class Prop(Check):
     def gen(self, rng, n, tier):
         for _ in range(n):
             profile = rng.weighted([("mixed", 5), ("lists", 5), ("scalar", 2)])
-            yield self.gen_one(rng, profile)
+            case = self.gen_one(rng, profile)
+            # how the providers learn that a reference is resolved: from the model (attribute values), from the
+            # resolver (needs_to_be_resolved per attribute / per object, has_unresolved_crossrefs of the asking
+            # model), one way for the whole case or one per waiting reference; plus queries without effect
+            ask = rng.weighted([("value", 4), ("a", 2), ("o", 1), ("r", 1), ("each", 3)])
+            if ask != "value":
+                self.gen_how(rng, case, ask)
+            yield case
+
+    def gen_how(self, rng, case, ask):
+        waiting = [k for k, _ in case["deps"]]
+        if ask == "each":
+            how = [[k, rng.weighted([("v", 2), ("a", 3), ("o", 2), ("r", 2)])] for k in waiting]
+        else:
+            how = [[k, ask] for k in waiting]
+        case["how"] = [[k, h] for k, h in how if h != "v"]
+        ids = sorted(r for f in case["files"] for r in file_refs(f))
+        if rng.chance(0.3):
+            case["probe"] = [[k, rng.sample(ids, rng.randint(1, min(2, len(ids))))]
+                             for k in ids if rng.chance(0.4)]
 
     def gen_deps(self, rng, ids, clean):
         """dependency structure: `clean` = a DAG along a hidden resolution order (always resolvable, the hidden
@@ -384,7 +506,7 @@ class Prop(Check):
         files = case["files"]
         nrefs = sum(len(file_refs(f)) for f in files)
         log = []
-        mm = make_mm(table, log, limit=(nrefs + 3) * (nrefs + 1) + 5, style=case.get("prov", "exact"))
+        mm = make_mm(table, log, limit=(nrefs + 3) * (nrefs + 1) + 5, style=case.get("prov", "exact"), case=case)
         tmp = tempfile.mkdtemp(prefix="c09_")
         try:
             for i, f in enumerate(files):
@@ -436,7 +558,27 @@ class Prop(Check):
     # ------------------------------------------------------------------ model tie
     def model_req(self, case, obs):
         lists = [a["refs"] for a in case_attrs(case) if a["list"]]
-        return {"op": "resolve", "refs": self.order(case), "deps": case["deps"], "lists": lists}
+        how = case_how(case)
+        if not how:
+            return {"op": "resolve", "refs": self.order(case), "deps": case["deps"], "lists": lists}
+        # providers that ask the resolver: the `_crossrefs` list of every model file takes part
+        order = file_order(case["files"])
+        slot = {f: n for n, f in enumerate(order)}
+        places = case_places(case)
+        files = [[[r, places[r][1], places[r][2]] for r in file_refs(case["files"][f])] for f in order]
+        waits = []
+        for k, ds in case["deps"]:
+            ws = []
+            for d in ds:
+                p = places.get(d)
+                if how.get(k, "v") == "v" or p is None or p[0] not in slot:
+                    ws.append([0, d])  # (a reference that is not there never resolves)
+                elif how[k] == "o":
+                    ws.append([2, slot[p[0]], p[1]])
+                else:
+                    ws.append([1, slot[p[0]], p[1], p[2]])
+            waits.append([k, ws])
+        return {"op": "resolveq", "files": files, "waits": waits, "lists": lists}
 
     def compare(self, case, obs, out):
         if "err" in out:
@@ -461,13 +603,14 @@ class Prop(Check):
     # ------------------------------------------------------------------ direct oracle
     def oracle(self, case, obs):
         # spec: least fixpoint of "all dependencies resolved"
-        table = {i: d for i, d in case["deps"]}
+        table = expanded_deps(case, set(file_order(case["files"])))
         refs = self.order(case)
         lfp, changed = set(), True
         while changed:
             changed = False
             for r in refs:
-                if r not in lfp and all(d in lfp for d in table.get(r, [])):
+                want = table.get(r, set())
+                if r not in lfp and want is not None and want <= lfp:
                     lfp.add(r)
                     changed = True
         dead = sorted(set(refs) - lfp)
@@ -556,32 +699,53 @@ class Prop(Check):
     def shrink(self, case):
         files = [{"imports": f["imports"], "elems": file_elems(f)} for f in case["files"]]
         prov = case.get("prov", "exact")
+        how = [[k, h] for k, h in case.get("how", []) if h != "v"]
+        probe = [[k, ds] for k, ds in case.get("probe", []) if ds]
+
+        def mk(deps, files, prov=prov, how=how, probe=probe):
+            waiting = {k for k, _ in deps}
+            c = {"deps": deps, "prov": prov, "files": files}
+            if any(k in waiting for k, _ in how):
+                c["how"] = [[k, h] for k, h in how if k in waiting]
+            if probe:
+                c["probe"] = probe
+            return c
+
         ids = sorted({r for f in files for r in file_refs(f)})
+        # no queries without effect
+        if probe:
+            yield mk(case["deps"], files, probe=[])
         # drop one reference (and mentions of it)
         for x in ids:
             fs = [{"imports": f["imports"], "elems": self._without(f["elems"], x)} for f in files]
             deps = [[i, [d for d in ds if d != x]] for i, ds in case["deps"] if i != x]
             deps = [[i, ds] for i, ds in deps if ds]
+            pr = [[k, [d for d in ds if d != x]] for k, ds in probe if k != x]
             if any(file_refs(f) for f in fs):
-                yield {"deps": deps, "prov": prov, "files": fs}
+                yield mk(deps, fs, how=[[k, h] for k, h in how if k != x], probe=[[k, ds] for k, ds in pr if ds])
         # one file
         if len(files) > 1:
             merged = {"imports": [], "elems": [e for f in files for e in f["elems"]]}
-            yield {"deps": case["deps"], "prov": prov, "files": [merged]}
+            yield mk(case["deps"], [merged])
         # open a container
         for fi, f in enumerate(files):
             for j, e in enumerate(f["elems"]):
                 if e["k"] == "box":
                     f2 = {"imports": f["imports"], "elems": f["elems"][:j] + e["e"] + f["elems"][j + 1:]}
-                    yield {"deps": case["deps"], "prov": prov, "files": files[:fi] + [f2] + files[fi + 1:]}
+                    yield mk(case["deps"], files[:fi] + [f2] + files[fi + 1:])
         # drop one wait
         for n, (i, ds) in enumerate(case["deps"]):
             for d in ds:
                 rest = [y for y in ds if y != d]
                 deps = case["deps"][:n] + ([[i, rest]] if rest else []) + case["deps"][n + 1:]
-                yield {"deps": deps, "prov": prov, "files": files}
+                yield mk(deps, files)
+        # a provider that looks at the model instead of asking the resolver; the plain query
+        for n, (k, h) in enumerate(how):
+            yield mk(case["deps"], files, how=how[:n] + how[n + 1:])
+            if h != "a":
+                yield mk(case["deps"], files, how=how[:n] + [[k, "a"]] + how[n + 1:])
         if prov != "exact":
-            yield {"deps": case["deps"], "prov": "exact", "files": files}
+            yield mk(case["deps"], files, prov="exact")
 
     def extra_search(self, rng, tier, broken):
         return list(self.gen(rng, 1500 if tier == "quick" else 10000, tier))
